@@ -463,6 +463,17 @@ def _weights(t, depth=0):
         return _weights(t[3], depth + 1)
     if t[0] == "payload" and norm(t[2])[0] == "call":
         return [(1, norm(t[2]))]
+    if t[0] == "call" and str(t[1]).endswith("::from_be_bytes") and len(t[2]) == 1:
+        a = norm(t[2][0])
+        if a[0] == "agg" and a[1] == "array":
+            out = []
+            for i, (_, e) in enumerate(a[3]):
+                w = _weights(e, depth + 1)
+                if w is None:
+                    return None
+                out += [(x[0] * 256 ** (len(a[3]) - 1 - i), x[1]) for x in w]
+            return out
+        return None
     c = const_of(t)
     if isinstance(c, int):
         return [(c, None)]
